@@ -1,16 +1,22 @@
 #!/bin/bash
-# usage: run_extract.sh <repo dir> <out dir> [extra cargo args...]
-# Runs the mosfacts driver over the workspace in <repo dir> with a fresh target dir; writes facts to <out dir>.
+# usage: run_extract.sh <repo dir> <out dir> <profile> [extra cargo args...]
+# Runs the mosfacts driver (RUSTC_WORKSPACE_WRAPPER) over the workspace in <repo dir>; facts go to <out dir>.
+# The target dir /verif/.cache/target-<profile> keeps the *dependencies* warm; the workspace members'
+# fingerprints are removed first so that cargo re-runs the driver on every member (a fresh-looking member
+# would otherwise be skipped and produce no facts).
 set -e
-REPO="$1"; OUT="$2"; shift 2
-DRV=/verif/engine/mosfacts/target/release/mosfacts
+REPO="$1"; OUT="$2"; PROFILE="$3"; shift 3
+VERIF="$(cd "$(dirname "$0")/.." && pwd)"
+DRV="$VERIF/engine/mosfacts/target/release/mosfacts"
 [ -x "$DRV" ] || { echo "mosfacts driver not built (run MANIFEST.setup_cmd)" >&2; exit 2; }
-T=$(mktemp -d /var/tmp/mosverif.XXXXXX)
-trap 'rm -rf "$T"' EXIT
-mkdir -p "$OUT"
+T="$VERIF/.cache/target-$PROFILE"
+mkdir -p "$T" "$OUT"
+rm -rf "$T"/debug/.fingerprint/mos-* "$T"/debug/.fingerprint/mos_* "$T"/debug/incremental
 cd "$REPO"
 LD_LIBRARY_PATH=$(rustc +nightly --print sysroot)/lib \
 RUSTFLAGS="-Zmir-opt-level=0 -Awarnings ${MOSFACTS_RUSTFLAGS}" \
 RUSTC_WORKSPACE_WRAPPER="$DRV" MOSFACTS_OUT="$OUT" \
-CARGO_TARGET_DIR="$T" CARGO_NET_OFFLINE=true \
+CARGO_TARGET_DIR="$T" CARGO_NET_OFFLINE=true CARGO_INCREMENTAL=0 \
 cargo +nightly check --offline --workspace "$@" >"$OUT/cargo.log" 2>&1 || { tail -40 "$OUT/cargo.log" >&2; exit 2; }
+# stale member artifacts of earlier trees are not needed again
+find "$T"/debug/deps -maxdepth 1 \( -name 'libmos-*' -o -name 'libmos_*' -o -name 'mos-*' -o -name 'mos_*' \) -mmin +30 -delete 2>/dev/null || true
